@@ -13,6 +13,7 @@ Lemma W_total_ok : total_ok W = true.         Proof. vm_compute. reflexivity. Qe
 Lemma W_first_cells_ok : first_cells_ok W = true.   Proof. vm_compute. reflexivity. Qed.
 Lemma W_second_cells_ok : second_cells_ok W = true. Proof. vm_compute. reflexivity. Qed.
 Lemma W_binop_cells_ok : binop_cells_ok W = true.   Proof. vm_compute. reflexivity. Qed.
+Lemma W_required_ok : required_ok W = true.         Proof. vm_compute. reflexivity. Qed.
 Lemma W_opclasses_nonempty : w_opclasses W <> []. Proof. vm_compute. discriminate. Qed.
 
 (* ---- contracts of the translated bodies ---- *)
